@@ -106,6 +106,84 @@ def run(repo, rep, tier):
                         rep.check('escape', 'handler formats %s with %%%s: operand is an int' % (unparse(op)[:30], sp), k == {'int'}, _n,
                                   'the task\'s exception handler formats %s with %%%s but it is not known to be an int (%s): a TypeError raised inside the handler leaves the pool task' % (unparse(op), sp, sorted(k)), stmt='handler format operand %s' % unparse(op)[:30])
 
+    # the entries of the target list are parsed in main(), before the pool exists and outside every per-target handler: an exception raised while parsing
+    # ONE entry ends the whole run (no block for any target).  Sites: explicit raises of the parser and int() of text that is not known to be digits.
+    php = repo.func('utils', 'Utils.parse_host_and_port')
+    rep.saw(php)
+    pcalls = [n for n in walk_no_nested(mn) if isinstance(n, ast.Call) and call_name(n) == 'Utils.parse_host_and_port']
+    rep.floor('escape', 'target entries parsed in main()', len(pcalls), 1)
+
+    def _covered(call_):
+        q = call_
+        while q is not None and q is not mn:
+            par = q._parent
+            if isinstance(par, ast.Try) and q in par.body and any(ea.h.catches(h.type, 'ValueError') for h in par.handlers):
+                return True
+            q = par
+        return False
+
+    def _digit_group(func_, name_):
+        """the local `name_` is assigned once from <match>.group(k) and the k-th group of the constant pattern matches decimal digits only"""
+        import re._parser as _rp        # noqa: PLC0415
+        defs_ = [d for d in walk_no_nested(func_) if isinstance(d, ast.Assign) and any(isinstance(t, ast.Name) and t.id == name_ for t in d.targets)]
+        if len(defs_) != 1 or not (isinstance(defs_[0].value, ast.Call) and isinstance(defs_[0].value.func, ast.Attribute) and defs_[0].value.func.attr == 'group' and len(defs_[0].value.args) == 1 and isinstance(defs_[0].value.args[0], ast.Constant)):
+            return False
+        k_ = defs_[0].value.args[0].value
+        pats_ = [c.args[0].value for c in walk_no_nested(func_) if isinstance(c, ast.Call) and unparse(c.func) in ('re.match', 're.search', 're.fullmatch') and c.args and isinstance(c.args[0], ast.Constant) and isinstance(c.args[0].value, str)]
+        if len(pats_) != 1:
+            return False
+
+        def find(sub):
+            for op, av in sub:
+                if str(op) == 'SUBPATTERN':
+                    if av[0] == k_:
+                        return av[3]
+                    r_ = find(av[3])
+                    if r_ is not None:
+                        return r_
+                elif str(op) in ('MAX_REPEAT', 'MIN_REPEAT'):
+                    r_ = find(av[2])
+                    if r_ is not None:
+                        return r_
+                elif str(op) == 'BRANCH':
+                    for alt in av[1]:
+                        r_ = find(alt)
+                        if r_ is not None:
+                            return r_
+            return None
+        g_ = find(_rp.parse(pats_[0]))
+        if g_ is None:
+            return False
+
+        def digits_only(sub):
+            for op, av in sub:
+                if str(op) in ('MAX_REPEAT', 'MIN_REPEAT'):
+                    if not digits_only(av[2]):
+                        return False
+                elif str(op) == 'IN':
+                    if not all(str(o2) == 'CATEGORY' and str(a2) == 'CATEGORY_DIGIT' for o2, a2 in av):
+                        return False
+                elif str(op) == 'LITERAL':
+                    if not chr(av).isdigit():
+                        return False
+                else:
+                    return False
+            return True
+        return digits_only(g_)
+    if not all(_covered(c_) for c_ in pcalls):
+        psites = []
+        for n in walk_no_nested(php):
+            if isinstance(n, ast.Raise):
+                psites.append((n, 'explicit raise'))
+            elif isinstance(n, ast.Call) and isinstance(n.func, ast.Name) and n.func.id == 'int' and len(n.args) == 1:
+                a_ = n.args[0]
+                if isinstance(a_, ast.Name) and _digit_group(php, a_.id):
+                    continue
+                psites.append((n, 'int() of text that need not be a number'))
+        for n, what_ in psites:
+            rep.check('escape', 'parsing one target entry cannot end the whole run: %s' % stmt_text(enclosing(n))[:60], False, n,
+                      'ValueError (%s) in Utils.parse_host_and_port leaves main() while the target list is parsed, before any target is scanned: one bad entry of the targets file aborts the whole multi-target run with a traceback, and no listed target gets a result block' % what_,
+                      func='utils:Utils.parse_host_and_port', stmt='ValueError @ %s' % stmt_text(enclosing(n)))
     # ---- rule 2: ranked codes -----------------------------------------------------------------------------------------------
     codes = {k: ce.lookup('exitcodes', k) for k in ('GOOD', 'WARNING', 'FAILURE', 'CONNECTION_ERROR', 'UNKNOWN_ERROR')}
     rl = [n for n in walk_no_nested(mn) if isinstance(n, ast.Assign) and unparse(n.targets[0]) == 'ranked_return_codes']
